@@ -485,7 +485,7 @@ func derefB(p *[]byte) []byte {
 }
 
 func runC17(c *mon.Ctx) {
-	c.Rule("worker built with the Go race detector (GORACE halt_on_error=0, reports collected and de-duplicated by the supervisor; any report with a library frame is a violation). Rounds: G in {16,32,64} goroutines x GOMAXPROCS in {2,4,16}; each goroutine runs a seeded random mix of (a) read-only operations on SHARED claims-sets (P1, P2, extension; built by setters, by direct assignment and by decoding; one invalid; an extension with a nil pointer-embedded claim group and pointer-receiver codecs - four fresh ones per round, serialised for the FIRST time by all goroutines at once, and still nil afterwards; two with 12 software components, in one of which four components are invalid in different ways - the digest of Validate and GetSoftwareComponents is the full error text) - Validate, all getters, component getters, CBOR/JSON encoding validating and not - and on SHARED Evidence (self-signed and decoded): Verify with right and wrong key, GetInstanceID, GetImplementationID, MarshalJSON; a goroutine's own Evidence signing a SHARED claims-set (one of them profile 1 without profile claim); after the mixed pass one shared decoded Evidence is verified by all goroutines at once 120 times each (right key, wrong key, non-key) and every result must be the lone caller's; (b) operations on PRIVATE objects: NewClaims for every registered profile, setters, decode CBOR / JSON / COSE, validate, read, encode, SetClaims, ValidateAndSign, Verify, and extension-profile encode / decode through the embedding-aware codec including decodes that fail half-way (duplicate key, text key, truncated). Profiles are only ever registered while no goroutine is running: the extension before the first round and one fresh profile before EVERY round, and each round runs its concurrent pass first, so that anything initialised lazily on first use (after a registration) is initialised under concurrency. A deep snapshot of every shared object taken before the concurrent pass must equal the one taken after it. The same seeds are then run sequentially; every operation's result digest must be identical in the concurrent run (signatures: verifies + payload equality). Call/return times from one monotonic clock give the number of operation pairs that actually overlapped on the same shared object; a round without such overlaps is inconclusive. Monitor state is per goroutine and merged after Wait(). distinct_nontrivial = distinct (round configuration, operation kind, object) signatures")
+	c.Rule("worker built with the Go race detector (GORACE halt_on_error=0, reports collected and de-duplicated by the supervisor; any report with a library frame is a violation). Rounds: G in {16,32,64} goroutines x GOMAXPROCS in {2,4,16}; each goroutine runs a seeded random mix of (a) read-only operations on SHARED claims-sets (P1, P2, extension; built by setters, by direct assignment and by decoding; one invalid; an extension with a nil pointer-embedded claim group and pointer-receiver codecs - four fresh ones per round, serialised for the FIRST time by all goroutines at once, and still nil afterwards; two with 12 software components, in one of which four components are invalid in different ways - the digest of Validate and GetSoftwareComponents is the full error text) - Validate, all getters, component getters, CBOR/JSON encoding validating and not - and on SHARED Evidence (self-signed and decoded): Verify with right and wrong key, GetInstanceID, GetImplementationID, MarshalJSON; a goroutine's own Evidence signing a SHARED claims-set (one of them profile 1 without profile claim); after the mixed pass one shared decoded Evidence is verified by all goroutines at once 120 times each (right key, wrong key, non-key) and every result must be the lone caller's; then all goroutines decode the SAME large CBOR claims-set / COSE token / extension JSON document (with deeply nested unknown members) at the same instant, 12 barrier-released steps each, write their own mark into the result and read it back: every outcome must be the lone caller's, no result may change under its owner, all results of a step must be distinct objects; (b) operations on PRIVATE objects: NewClaims for every registered profile, setters, decode CBOR / JSON / COSE, validate, read, encode, SetClaims, ValidateAndSign, Verify, and extension-profile encode / decode through the embedding-aware codec including decodes that fail half-way (duplicate key, text key, truncated). Profiles are only ever registered while no goroutine is running: the extension before the first round and one fresh profile before EVERY round, and each round runs its concurrent pass first, so that anything initialised lazily on first use (after a registration) is initialised under concurrency. A deep snapshot of every shared object taken before the concurrent pass must equal the one taken after it. The same seeds are then run sequentially; every operation's result digest must be identical in the concurrent run (signatures: verifies + payload equality). Call/return times from one monotonic clock give the number of operation pairs that actually overlapped on the same shared object; a round without such overlaps is inconclusive. Monitor state is per goroutine and merged after Wait(). distinct_nontrivial = distinct (round configuration, operation kind, object) signatures")
 	if err := extprof.Register(extprof.ExtP2Name); err != nil {
 		c.Violation("harness/register", err.Error(), nil)
 		return
@@ -601,6 +601,112 @@ func runC17(c *mon.Ctx) {
 					if d != "" {
 						c.Violation("C17/result-differs-from-sequential/hammered-Evidence.Verify", "one shared decoded Evidence verified by all goroutines at once: "+d, map[string]any{"round": fmt.Sprintf("G=%d,GOMAXPROCS=%d", rc.G, rc.procs)})
 						break
+					}
+				}
+			}
+			// SAME-BYTES DECODE STORM (seeded faults C17-u: byte-identical decodes in flight
+			// at the same moment are coalesced and share one result; C17-v: a nesting
+			// budget counted across all decodes in progress): all goroutines decode the
+			// same large CBOR claims-set / COSE token / extension JSON document (with a
+			// deeply nested unknown member) at once, each then writes its own mark into
+			// "its" result and reads it back; every decode outcome must be the lone
+			// caller's and all results of one step must be distinct objects.
+			{
+				big := g.Valid(2)
+				big.HasComps, big.NoMeas, big.Comps = true, nil, nil
+				for j := 0; j < 120; j++ {
+					big.Comps = append(big.Comps, g.ValidComp())
+				}
+				bigWire := refcbor.Encode(big.WireCBOR())
+				bigTok := sign1Bytes([]byte{0xa1, 0x01, 0x26}, nil, bigWire, make([]byte, 64))
+				ext := g.Valid(2)
+				ext.Canon, ext.Profile = extprof.ExtP2Name, model.SP(extprof.ExtP2Name)
+				extDoc := string(ext.WireJSON())
+				nested := strings.Repeat(`{"a":[`, 10) + "1" + strings.Repeat("]}", 10)
+				extDoc = extDoc[:len(extDoc)-1] + `,"x-unknown":` + nested + `,"x-unknown-2":` + nested + `}`
+				type stormIn struct {
+					name string
+					dec  func() (psatoken.IClaims, error)
+				}
+				ins := []stormIn{
+					{"DecodeClaimsFromCBOR", func() (psatoken.IClaims, error) {
+						return psatoken.DecodeClaimsFromCBOR(append([]byte{}, bigWire...))
+					}},
+					{"DecodeEvidenceFromCOSE", func() (psatoken.IClaims, error) {
+						e, err := psatoken.DecodeEvidenceFromCOSE(append([]byte{}, bigTok...))
+						if err != nil {
+							return nil, err
+						}
+						return e.Claims, nil
+					}},
+					{"DecodeClaimsFromJSON(extension)", func() (psatoken.IClaims, error) { return psatoken.DecodeClaimsFromJSON([]byte(extDoc)) }},
+				}
+				const steps = 12
+				for _, in := range ins {
+					_, refErr := in.dec()
+					ref := errStr(refErr)
+					runtime.GOMAXPROCS(rc.procs)
+					results := make([][]psatoken.IClaims, rc.G)
+					diffs := make([]string, rc.G)
+					var sw sync.WaitGroup
+					var gates [steps]chan struct{}
+					for i := range gates {
+						gates[i] = make(chan struct{})
+					}
+					var arrived [steps]sync.WaitGroup
+					for i := range arrived {
+						arrived[i].Add(rc.G)
+					}
+					for gid := 0; gid < rc.G; gid++ {
+						sw.Add(1)
+						go func(gid int) {
+							defer sw.Done()
+							for i := 0; i < steps; i++ {
+								arrived[i].Done()
+								<-gates[i]
+								x, err := in.dec()
+								if got := errStr(err); got != ref && diffs[gid] == "" {
+									diffs[gid] = fmt.Sprintf("alone %q, under concurrency %q", ref, got)
+								}
+								results[gid] = append(results[gid], x)
+								if err == nil && x != nil {
+									mark := int32(gid*1000 + i)
+									_ = x.SetClientID(mark)
+									runtime.Gosched()
+									if got, gerr := x.GetClientID(); (gerr != nil || got != mark) && diffs[gid] == "" {
+										diffs[gid] = fmt.Sprintf("a goroutine's own decode result was changed under it: client id set to %d, read back %d (%v)", mark, got, gerr)
+									}
+								}
+							}
+						}(gid)
+					}
+					for i := 0; i < steps; i++ {
+						arrived[i].Wait()
+						close(gates[i])
+					}
+					sw.Wait()
+					runtime.GOMAXPROCS(prev)
+					c.Add("same-bytes-storm-decodes", int64(rc.G*steps))
+					rk := map[string]any{"round": fmt.Sprintf("G=%d,GOMAXPROCS=%d", rc.G, rc.procs), "entry": in.name}
+					for _, d := range diffs {
+						if d != "" {
+							c.Violation("C17/result-differs-from-sequential/same-bytes-storm/"+in.name, "all goroutines decoding the same bytes at once: "+d, rk)
+							break
+						}
+					}
+				shared:
+					for i := 0; i < steps; i++ {
+						seen := map[psatoken.IClaims]int{}
+						for gid := 0; gid < rc.G; gid++ {
+							if i >= len(results[gid]) || results[gid][i] == nil {
+								continue
+							}
+							if other, dup := seen[results[gid][i]]; dup {
+								c.Violation("C17/distinct-decodes-share-one-result/"+in.name, fmt.Sprintf("goroutines %d and %d decoded the same bytes at the same time and were handed the SAME object", other, gid), rk)
+								break shared
+							}
+							seen[results[gid][i]] = gid
+						}
 					}
 				}
 			}
